@@ -26,6 +26,10 @@ LinkViol(ev) ==
   IF \E k \in 1..Len(ev.tus) : ev.tus[k] \notin DOMAIN tus \/ ~tus[ev.tus[k]].ok THEN {}
   ELSE (IF ev.ok # LinksOK(ev.tus) THEN {"linker-disagrees-with-odr-rule"} ELSE {})
        \cup (IF ~ev.ok THEN {"multiple-definition-at-link"} ELSE {})
+\* two public headers in ONE translation unit: the second must still contribute what it contributes alone (it enters the same
+\* parmcb files and its own text does not vanish) - an include-guard clash or a leaked macro makes it silently empty
+PairViol(ev) ==
+  IF Len(ev.missing) # 0 \/ (ev.own_alone > 0 /\ ev.own_after = 0) THEN {"header-suppressed-by-an-earlier-header"} ELSE {}
 \* every pair of compiled TUs of one configuration, including a header with itself
 AllPairsViol(cfg) ==
   LET names == {t \in DOMAIN tus : tus[t].ok /\ tus[t].cfg = cfg}
